@@ -112,13 +112,32 @@ Definition cache_model (c : bool * list cop) : list (cout * nat) :=
             out.append(dict(allow_nones=rng.random() < 0.7, ops=ops))
         return out
 
+    checks_key = True
+
+    def make_root(self, path, case):
+        from taskchain.cache import JsonCache
+        return JsonCache(path, allow_nones=case['allow_nones'])
+
+    def to_py(self, v):
+        return v
+
+    def from_py(self, v):
+        return v
+
+    def plant(self, cache, p, op):
+        p.parent.mkdir(parents=True, exist_ok=True)
+        p.write_text(json.dumps({'key': op['other'], 'value': op['value']}))
+
+    def other_shape(self, op):
+        return json.dumps([1, 2] if op['at'] % 2 else {'key': op['key']}).encode()
+
     def run_impl(self, case):
-        from taskchain.cache import JsonCache, CacheException, NO_VALUE
+        from taskchain.cache import CacheException, NO_VALUE
         import logging
         logging.getLogger('cache').handlers = [logging.NullHandler()]
         d = tempfile.mkdtemp(prefix='tcverif-cache-')
         try:
-            root = JsonCache(Path(d) / 'root', allow_nones=case['allow_nones'])
+            root = self.make_root(Path(d) / 'root', case)
             outs = []
             for op in case['ops']:
                 c = root
@@ -129,7 +148,7 @@ Definition cache_model (c : bool * list cop) : list (cout * nat) :=
                 if kind == 'get':
                     try:
                         v = c.get(op['key'])
-                        outs.append(dict(kind='novalue') if v is NO_VALUE else dict(value=v))
+                        outs.append(dict(kind='novalue') if v is NO_VALUE else dict(value=self.from_py(v)))
                     except CacheException:
                         outs.append(dict(kind='cache_exc'))
                 elif kind == 'goc':
@@ -137,10 +156,10 @@ Definition cache_model (c : bool * list cop) : list (cout * nat) :=
                         calls[0] += 1
                         if op['comp'] is None:
                             raise Boom()
-                        return op['comp'][0]
+                        return self.to_py(op['comp'][0])
                     try:
                         v = c.get_or_compute(op['key'], computer, force=op['force'])
-                        outs.append(dict(value=v))
+                        outs.append(dict(value=self.from_py(v)))
                     except CacheException:
                         outs.append(dict(kind='cache_exc'))
                     except Boom:
@@ -148,7 +167,7 @@ Definition cache_model (c : bool * list cop) : list (cout * nat) :=
                 else:
                     p = c.filepath(op['key'])
                     if kind == 'plant':
-                        p.write_text(json.dumps({'key': op['other'], 'value': op['value']}))
+                        self.plant(c, p, op)
                     else:
                         old = p.read_bytes() if p.exists() else b'{"key": "x", "value": 1}'
                         how = op['how']
@@ -159,7 +178,8 @@ Definition cache_model (c : bool * list cop) : list (cout * nat) :=
                         elif how == 'garbage':
                             new = b'\\x00\\xff not json'
                         else:
-                            new = json.dumps([1, 2] if op['at'] % 2 else {'key': op['key']}).encode()
+                            new = self.other_shape(op)
+                        p.parent.mkdir(parents=True, exist_ok=True)
                         p.write_bytes(new)
                     outs.append(dict(kind='novalue'))
                 outs[-1]['calls'] = calls[0]
@@ -178,13 +198,13 @@ Definition cache_model (c : bool * list cop) : list (cout * nat) :=
         store = {}
         for j, (op, o) in enumerate(zip(case['ops'], obs['outs'])):
             slot = (tuple(op['sub']), op['key'])
-            allow = case['allow_nones'] or bool(op['sub'])
+            allow = case['allow_nones'] or bool(op['sub']) or not self.checks_key
             kind = op['op']
             ent = store.get(slot)          # ('ok', v) | ('damaged',) | ('foreign', other, v) | None
             def loaded():
                 if ent is None or ent[0] == 'damaged':
                     return None
-                if ent[0] == 'foreign' and ent[1] != op['key']:
+                if ent[0] == 'foreign' and ent[1] != op['key'] and self.checks_key:
                     return {'kind': 'cache_exc'}
                 v = ent[-1]
                 if v is None and not allow:
@@ -232,6 +252,67 @@ Definition cache_model (c : bool * list cop) : list (cout * nat) :=
                 k = 'value' if 'value' in out else out['kind']
                 d['outcomes'][k] = d['outcomes'].get(k, 0) + 1
         return d
+
+
+ARRAYS = {'A0': lambda np: np.arange(6).reshape(2, 3), 'A1': lambda np: np.array([1.5, -2.0]), 'A2': lambda np: np.zeros((0, 2)),
+          'A3': lambda np: np.array(7), 'A4': lambda np: np.array(['x', 'yz']), 'A5': lambda np: np.array([{'k': 1}, None], dtype=object)}
+
+
+class NumpyCacheOps(JsonCacheOps):
+    """the same histories on a NumpyArrayCache: it records no key in its files (ca_checks_key = false) and has no
+    notion of refused None; values are six arrays (numeric, empty, 0-d, strings, objects), named in the model"""
+    name = 'numpy_cache_histories'
+    checks_key = False
+    model = 'array_cache_model'
+    prelude = JsonCacheOps.prelude + '''
+Definition array_cache_model (c : bool * list cop) : list (cout * nat) :=
+  crun sha256_hex {| ca_dir := lit "root"; ca_allow_nones := true; ca_checks_key := false |} [] (snd c).
+'''
+
+    def corpus(self):
+        return [dict(allow_nones=True, ops=[
+            dict(op='goc', sub=[], key='k', comp=['A5'], force=False), dict(op='get', sub=[], key='k'),
+            dict(op='goc', sub=[], key='k', comp=['A0'], force=False), dict(op='goc', sub=[], key='k', comp=None, force=True),
+            dict(op='get', sub=[], key='k'), dict(op='damage', sub=[], key='k', how='truncate', at=20),
+            dict(op='get', sub=[], key='k'), dict(op='goc', sub=['s'], key='k', comp=['A3'], force=False),
+            dict(op='plant', sub=[], key='k2', other='k', value='A2'), dict(op='get', sub=[], key='k2')])]
+
+    def gen(self, rng, tier):
+        out = []
+        for c in super().gen(rng, tier)[:(30 if tier == 'quick' else 600)]:
+            for op in c['ops']:
+                if op.get('comp'):
+                    op['comp'] = [rng.choice(sorted(ARRAYS))]
+                if 'value' in op:
+                    op['value'] = rng.choice(sorted(ARRAYS))
+                if op.get('how') == 'shape':
+                    op['how'] = 'garbage'
+            c['allow_nones'] = True
+            out.append(c)
+        return out
+
+    def make_root(self, path, case):
+        from taskchain.cache import NumpyArrayCache
+        return NumpyArrayCache(path)
+
+    def to_py(self, v):
+        import numpy as np
+        return ARRAYS[v](np)
+
+    def from_py(self, v):
+        import numpy as np
+        from .c06 import describe
+        d = json.dumps(describe(v), sort_keys=True, default=str)
+        for k, f in ARRAYS.items():
+            if json.dumps(describe(f(np)), sort_keys=True, default=str) == d:
+                return k
+        return f'unknown array {d[:80]}'
+
+    def plant(self, cache, p, op):
+        import numpy as np
+        p.parent.mkdir(parents=True, exist_ok=True)
+        with p.open('wb') as f:
+            np.save(f, ARRAYS[op['value']](np), allow_pickle=True)
 
 
 class ArrayAndFrameCaches(Suite):
@@ -327,7 +408,7 @@ class ArrayAndFrameCaches(Suite):
 
 class C14(Prop):
     pid = 'C14'
-    suites = [JsonCacheOps(), ArrayAndFrameCaches()]
+    suites = [JsonCacheOps(), NumpyCacheOps(), ArrayAndFrameCaches()]
     trusted_base = ['orjson round trip of JSON-like values and "no proper prefix of an entry parses" (damaged files are '
                     'produced by truncation at arbitrary byte lengths in the correspondence)']
     assumptions = ['sequential use (concurrency is C15); SHA-256 without collision on the keys that occur']
